@@ -56,6 +56,15 @@ def make_agg(spec, dtype):
     raise AssertionError(spec)
 
 
+def jac_dtype(ts, idxs, dtype):
+    """dtype of the Jacobian torchjd assembles for these inputs: gradients of different precisions are promoted when
+    concatenated (mixed-precision models); a Constant's weights must be handed over in that dtype"""
+    ds = {ts[i].dtype for i in idxs}
+    if torch.float64 in ds:
+        return torch.float64
+    return torch.float32 if ds else dtype
+
+
 def grads_of(ts, report):
     out = {}
     for k in report:
@@ -67,7 +76,7 @@ def grads_of(ts, report):
 def set_pre(P: Program, ts, pre, dtype):
     for k, v in pre.items():
         if v is not None:
-            ts[k].grad = torch.tensor([float(x) for x in v], dtype=dtype).reshape(P.nodes[k].shape)
+            ts[k].grad = torch.tensor([float(x) for x in v], dtype=ts[k].dtype).reshape(P.nodes[k].shape)
 
 
 def as_iterable(kind, xs):
@@ -93,7 +102,8 @@ def real_backward(P: Program, dtype, tensors, inputs, agg, chunk, retain, pre, r
         ts[i].requires_grad_(False)
     err = None
     try:
-        backward(as_iterable(tensors_kind, [ts[i] for i in tensors]), make_agg(agg, dtype),
+        ins_ = inputs if inputs is not None else sorted(P.reach_leaves(tensors))
+        backward(as_iterable(tensors_kind, [ts[i] for i in tensors]), make_agg(agg, jac_dtype(ts, ins_, dtype)),
                  inputs=None if inputs is None else as_iterable(inputs_kind, [ts[i] for i in inputs]),
                  retain_graph=retain, parallel_chunk_size=chunk)
     except Exception as e:  # noqa: BLE001
@@ -112,7 +122,8 @@ def real_mtl(P: Program, dtype, losses, features, tasks, shared, agg, chunk, ret
     err = None
     wrap = (lambda xs: (x for x in xs)) if as_generators else (lambda xs: xs)
     try:
-        mtl_backward([ts[i] for i in losses], [ts[i] for i in features], make_agg(agg, dtype),
+        sh_ = shared if shared is not None else sorted(P.reach_leaves(features))
+        mtl_backward([ts[i] for i in losses], [ts[i] for i in features], make_agg(agg, jac_dtype(ts, sh_, dtype)),
                      tasks_params=None if tasks is None else [wrap([ts[i] for i in tp]) for tp in tasks],
                      shared_params=None if shared is None else wrap([ts[i] for i in shared]),
                      retain_graph=retain, parallel_chunk_size=chunk)
